@@ -10,7 +10,8 @@ import sys
 from vp import env, world, forge, schema, xmlsec
 
 TMP = [None]
-XML_MODULES = ('xml.etree.ElementTree', 'xml.etree.cElementTree', 'xml.dom.minidom', 'xml.dom.pulldom', 'xml.dom',
+ET_MODULES = ('xml.etree.ElementTree', 'xml.etree.cElementTree', 'cElementTree', 'elementtree.ElementTree', 'elementtree')
+XML_MODULES = ET_MODULES + ('xml.etree.ElementTree', 'xml.etree.cElementTree', 'xml.dom.minidom', 'xml.dom.pulldom', 'xml.dom',
                'xml.sax', 'xml.parsers.expat', 'xml.etree', 'lxml', 'lxml.etree', 'lxml.objectify', 'xmltodict', 'xml')
 PARSE_NAMES = {'fromstring', 'XML', 'XMLID', 'parse', 'iterparse', 'XMLParser', 'XMLPullParser', 'parseString',
                'ParserCreate', 'make_parser', 'fromstringlist', 'parseFragment', 'expatbuilder', 'pulldom', 'sax', 'expat',
@@ -47,56 +48,53 @@ def inventory_file(path):
     """Returns list of (lineno, resolved dotted name, verdict) for every XML-parsing reference."""
     src = open(path, encoding='utf-8').read()
     tree = ast.parse(src, path)
-    alias = {}
+    alias = {}          # local name -> set of possible dotted targets (a name may be bound by several imports)
     sites = []
     for node in ast.walk(tree):
         if isinstance(node, ast.Import):
             for a in node.names:
                 if a.asname:
-                    alias[a.asname] = a.name
+                    alias.setdefault(a.asname, set()).add(a.name)
                 else:
-                    alias[a.name.split('.')[0]] = a.name.split('.')[0]
+                    alias.setdefault(a.name.split('.')[0], set()).add(a.name.split('.')[0])
         elif isinstance(node, ast.ImportFrom) and node.module and node.level == 0:
             for a in node.names:
-                alias[a.asname or a.name] = node.module + '.' + a.name
+                alias.setdefault(a.asname or a.name, set()).add(node.module + '.' + a.name)
     for node in ast.walk(tree):
-        name = None
+        names = []
         if isinstance(node, ast.Attribute):
             d = dotted(node)
             if d and d[0] in alias:
-                name = alias[d[0]].split('.') + d[1:]
+                names = [t.split('.') + d[1:] for t in sorted(alias[d[0]])]
         elif isinstance(node, ast.Name) and isinstance(node.ctx, ast.Load) and node.id in alias:
-            name = alias[node.id].split('.')
-        if not name:
-            continue
-        full = '.'.join(name)
-        mod_is_xml = any(full == m or full.startswith(m + '.') for m in XML_MODULES)
-        if full.startswith('defusedxml'):
-            if name[-1] in PARSE_NAMES:
-                sites.append((node.lineno, full, 'defused'))
-            continue
-        if not mod_is_xml:
-            continue
-        last = name[-1]
-        if full.startswith('xml.etree.ElementTree') or full.startswith('xml.etree.cElementTree'):
-            if last in ('ElementTree', 'cElementTree') and isinstance(node, (ast.Name,)):
-                continue                      # bare module reference: its uses are attributes, seen separately
-            if last in SAFE_ET or last in ('ElementTree', 'cElementTree', 'etree'):
-                if last in ('ElementTree',) and full.count('ElementTree') > 1:
-                    sites.append((node.lineno, full, 'UNSAFE'))     # ElementTree.ElementTree class has .parse
+            names = [t.split('.') for t in sorted(alias[node.id])]
+        for name in names:
+            full = '.'.join(name)
+            mod_is_xml = any(full == m or full.startswith(m + '.') for m in XML_MODULES)
+            if full.startswith('defusedxml'):
+                if name[-1] in PARSE_NAMES:
+                    sites.append((node.lineno, full, 'defused'))
                 continue
-            if last in PARSE_NAMES:
-                sites.append((node.lineno, full, 'UNSAFE'))
+            if not mod_is_xml:
+                continue
+            last = name[-1]
+            if any(full == m or full.startswith(m + '.') for m in ET_MODULES):
+                if isinstance(node, ast.Name):
+                    continue                  # bare module reference: its uses are attributes, seen separately
+                if last in PARSE_NAMES:
+                    sites.append((node.lineno, full, 'UNSAFE'))
+                elif last in SAFE_ET or last in ('ElementTree', 'cElementTree', 'etree', 'VERSION'):
+                    continue
+                else:
+                    sites.append((node.lineno, full, 'UNCLASSIFIED'))
+            elif full.startswith('lxml'):
+                # lxml is only reachable in the optional pyXMLSecurity backend; serialising is fine, parsing is not
+                if last in PARSE_NAMES:
+                    sites.append((node.lineno, full, 'UNSAFE'))
             else:
-                sites.append((node.lineno, full, 'UNCLASSIFIED'))
-        elif full.startswith('lxml'):
-            # lxml is only reachable in the optional pyXMLSecurity backend; serialising is fine, parsing is not
-            if last in PARSE_NAMES:
-                sites.append((node.lineno, full, 'UNSAFE'))
-        else:
-            # any reference into xml.dom / xml.sax / expat is a parser entry
-            if last not in ('xml',):
-                sites.append((node.lineno, full, 'UNSAFE'))
+                # any reference into xml.dom / xml.sax / expat is a parser entry
+                if last not in ('xml',):
+                    sites.append((node.lineno, full, 'UNSAFE'))
     # dynamic imports mentioning XML modules
     for node in ast.walk(tree):
         if isinstance(node, ast.Call):
